@@ -11,12 +11,15 @@
        in coverage and whose reverse fetch, negated, is sorted by start (monotone ends):
        nothing when p is covered, otherwise the entire maximal gap around p with None on an
        open side.  Every [rgood] complement (Proofs/Reverse2.v) qualifies.
+   (2b) a buffered stored timeline as subtractor ([buf_stored_sub_ok]) and as complement source
+       ([C16_complement_buf_stored]).
    (3) the inductive class [ovdom] closed under (1) and (2) and the oracle statement
        [mset_eqb (overlapping env e p) (ov_expected env e p) = true] on it.
    (4) refuted: the claim "for ANY expression".  Union / Intersection / Filter do not override
        overlapping(); their base implementation filters fetch(p, p+1), so a complement below
        a union comes out CLIPPED to [p, p+1) and a difference below a union is carved only by
-       the subtractors that meet [p, p+1). *)
+       the subtractors that meet [p, p+1); merge_within merges only the events meeting
+       [p, p+1) ([C16_merge_within_refuted]). *)
 From CG Require Import Proofs.Defs.
 From CG Require Import Spec.TransformSpec Proofs.Stored Proofs.RefSpec Proofs.Merge Proofs.Diff
      Proofs.Negate Proofs.Compl Proofs.Canon Proofs.Transform Proofs.Overlap Proofs.Reverse
